@@ -238,6 +238,17 @@ def run(ctx):
             # tolerance of the order of the noise and of the start error: the accept/reject decisions are then close calls that
             # depend on |a|, |b| and on the sqrt(|index|) relaxation for indices of both signs (the exact model decides them)
             c['tol'] = float(rng.choice([0.2, 0.35, 0.5, 0.8]))
+            # ... or a tolerance placed BETWEEN the first-round errors of two peaks (documented error formula, used here only to
+            # choose the input): whatever changes the error of a peak by more than the gap flips a decision
+            A = np.array([c['start'][1], c['start'][2]]).T
+            ij = np.linalg.solve(A, (c['pos'] - c['start'][0]).T).T
+            dd = np.abs(ij - np.around(ij)) * np.array([np.linalg.norm(c['start'][1]), np.linalg.norm(c['start'][2])]) / np.sqrt(np.maximum(1, np.abs(ij)))
+            ee = np.sort(np.linalg.norm(dd, axis=1))
+            ee = ee[(ee > 1e-3) & (ee < 3.0)]
+            gaps = [(ee[i + 1] / ee[i], i) for i in range(len(ee) - 1) if ee[i + 1] / ee[i] > 1.02]
+            if gaps and k % 8 != 1:
+                _, i = gaps[int(rng.integers(0, len(gaps)))]
+                c['tol'] = float(np.sqrt(ee[i] * ee[i + 1]))
         pk = '[' + '; '.join('(%s, %s)' % ('ENaN' if np.isnan(w) else 'EVal ' + cq(F(w)), qv(p)) for w, p in zip(c['w'], c['pos'])) + ']'
         ctx.hist('NaN elevations', int(np.isnan(c['w']).sum()))
         exprs.append('match fastmatch_f %s %s %d %s %s %s %s with Valid m z a b => (1, mout m, vl z, vl a, vl b) | Invalid r => (0 - r, [], vl vzero, vl vzero, vl vzero) end'
@@ -250,7 +261,13 @@ def run(ctx):
     nvalid = 0
     for mv, c in zip(vals, meta):
         ok, mm_, z, a, b = mv
-        m = run_impl(c)
+        try:
+            m = run_impl(c)
+        except Exception as e:  # noqa
+            fail = 'fastmatch raised %s: %s' % (type(e).__name__, e)
+            ctx.violation('input', fail, mk_replay(c, fail))
+            ndis += 1
+            continue
         problems = []
         ctx.hist('model_result', {1: 'valid', -1: 'singular start', -2: 'few in round 1', -3: 'round-1 fit singular', -4: 'fitted lattice singular',
                                   -5: 'few in round 2', -6: 'round-2 fit singular'}.get(ok, ok))
@@ -334,7 +351,9 @@ def run(ctx):
         LEVEL,
         explanation='Theorems over Q: a valid match has >= min_match selected peaks, all >= min_weight, one index per selected peak and the weighted fit of exactly '
                     'those peaks; a peak on a lattice position is matched with its true index for every tolerance > 0; a peak half a cell off is rejected for '
-                    'tolerance^2 <= |a|^2/(4 max(1,|i|)); parallel/zero vectors give Invalid; matching is translation invariant. Tie: the whole two-round '
+                    'tolerance^2 <= |a|^2/(4 max(1,|i|)); parallel/zero vectors give Invalid; matching is translation invariant and the whole fastmatch is covariant '
+                    'under rational orthogonal maps; peaks below min_weight and NaN elevations influence nothing. Tie: _match_all error/decision, get_indices and the '
+                    'lstsq row weights regenerated from the source text (bridge lemmas) and the whole two-round '
                     'fastmatch in exact rationals vs Matcher.fastmatch on the same floats (selection, indices, lattice, validity).',
         rule='lattices |a|,|b| 20..40 px at 60..120 degrees, 4..25 inliers of rank 3 with noise <= 0.3 px, 0..6 half-cell outliers, 0..3 weak peaks (30 % of them with NaN elevation), permuted, start '
              'perturbed by up to 1 px / 0.2 px (completeness demanded only when the worst-case first-round error stays below the tolerance), tolerances, min_match (also at the threshold); adversarial stream (empty, parallel, zero, NaN, inf, duplicates, collinear, zero weights).')
